@@ -64,7 +64,7 @@ func Harness_C04_faults() {
 func Setup_C04_deferFaults() { Setup_C13_defer() }
 
 // the @defer families without a known delivery-order finding (C13: F-10, F-15)
-var c04DeferFamilies = []int{0, 1, 3, 5}
+var c04DeferFamilies = []int{0, 1, 3, 5, 7, 8, 9}
 
 // Harness_C04_deferFaults: a single fault (error or panic; resolver or
 // directive) at any position of an operation with active @defer fragments,
